@@ -177,9 +177,13 @@ package statedb
 // registerTable: read-modify-write of the root entirely inside db.mu; the new root is the
 // old one plus exactly one entry.
 //@ func (*DB).registerTable
-//@   property C05 C10
+//@   property C05 C10 C02
 //@   flag nosafety
 //@   requires !GH_held[addr(db.mu)]
+//@   atcall SortableMutexes.Lock@* requires @no-table-locks-under-root-mutex !GH_held[addr(db.mu)]
+//@   atcall SortableMutex.Lock@* requires @no-table-locks-under-root-mutex !GH_held[addr(db.mu)]
+//@   atcall Locker.Lock@* requires @no-table-locks-under-root-mutex !GH_held[addr(db.mu)]
+//@   ensures @takes-no-table-locks unchanged(GH_smus)
 //@   atcall Load@1 requires @load-under-mu GH_held[addr(db.mu)]
 //@   atcall Store@1 requires @store-under-mu GH_held[addr(db.mu)]
 //@   ensures @unlocked !GH_held[addr(db.mu)]
@@ -370,7 +374,7 @@ package statedb
 //    no other index was touched;
 //  - otherwise: the revision grows by exactly one and the stored object carries it.
 //@ func (*writeTxnState).modify returns (oldObj, hadOld, watch, err)
-//@   property C03 C09
+//@   property C03 C09 C07 C08
 //@   maypanic
 //@   flag nosafety
 //@   requires txn != nil ==> 0 <= tposOf(meta) && tposOf(meta) < len(txn.tableEntries) && txn.tableEntries[tposOf(meta)] != nil && len(txn.tableEntries[tposOf(meta)].indexes) > 3
@@ -385,6 +389,9 @@ package statedb
 //@   ensures @mismatch-dom txn != nil && err == ErrRevisionNotEqual ==> (forall j int :: GH_dom[txn.tableEntries[tposOf(meta)].indexes[3]][j] == old(GH_dom[txn.tableEntries[tposOf(meta)].indexes[3]])[j])
 //@   ensures @mismatch-map txn != nil && err == ErrRevisionNotEqual ==> (forall j int :: GH_map[txn.tableEntries[tposOf(meta)].indexes[3]][j] == old(GH_map[txn.tableEntries[tposOf(meta)].indexes[3]])[j])
 //@   ensures @mismatch-rejected txn != nil && old(txn.tableEntries[tposOf(meta)].locked) && guardRevision > 0 && hadOld && oldObj.revision != guardRevision ==> err == ErrRevisionNotEqual
+//@   aftercall (*writeTxnState).mustIndexWriteTxn@* assume ixPos(result) == $2
+//@   atcall tableIndexTxn.delete@* requires @graveyard-touched-only-after-the-guard-passed (ixPos($0) == GraveyardIndexPos || ixPos($0) == GraveyardRevisionIndexPos) ==> (guardRevision == 0 || (oldExists && oldObj.revision == guardRevision))
+//@   atcall tableIndexTxn.reindex@* requires @secondary-indexes-only-after-the-guard-passed guardRevision == 0 || (oldExists && oldObj.revision == guardRevision)
 //@   ensures @match-accepted txn != nil && err == ErrRevisionNotEqual ==> hadOld && oldObj.revision != guardRevision && guardRevision > 0
 
 // delete (Delete / CompareAndDelete / DeleteAll): absent object: no error, nothing changes;
@@ -394,7 +401,7 @@ package statedb
 //@ func (*writeTxnState).hasDeleteTrackers
 //@   inline
 //@ func (*writeTxnState).delete returns (obj, hadOld, err)
-//@   property C03 C09 C08
+//@   property C03 C09 C08 C07
 //@   maypanic
 //@   flag nosafety
 //@   requires txn != nil ==> 0 <= tposOf(meta) && tposOf(meta) < len(txn.tableEntries) && txn.tableEntries[tposOf(meta)] != nil && len(txn.tableEntries[tposOf(meta)].indexes) > 3 && txn.tableEntries[tposOf(meta)].deleteTrackers != nil
@@ -536,6 +543,19 @@ package statedb
 //@   ensures @idle old(it.iter) == nil && !old(closed(it.watch)) ==> watch == old(it.watch) && it.iter == nil && it.watch == old(it.watch) && it.revision == old(it.revision) && it.deleteRevision == old(it.deleteRevision)
 //@   ensures @pending old(it.iter) != nil || old(closed(it.watch)) ==> watch == closedWatchChannel && it.watch == watchOf(croot(txn)[tposOf(it.table)].indexes[0]) && it.iter != nil
 
+// The sequence returned by Next (its yield loop): the delete tracker's watermark is advanced only
+// to the revision of a deletion that has just been handed to the consumer - never beyond what
+// was delivered (C07, C08) - and the cursors only move to revisions the dual iterator returned.
+//@ func (*deleteTracker).mark
+//@   trusted
+//@   modifies H_statedb_deleteTracker_* GH_stores GH_lastStored
+//@ func (*changeIterator).Next$2
+//@   property C07 C08
+//@   maypanic
+//@   flag nosafety
+//@   flag dyncall.yield=pure
+//@   atcall (*deleteTracker).mark@* requires @mark-only-a-deletion-just-handed-out deleted && $1 == rev && $1 == it.deleteRevision
+
 // WriteTxn: the root is loaded only after the table locks are held (so the transaction sees
 // every write committed to its tables earlier), and never while db.mu is held.
 //@ func reuseSlice
@@ -572,6 +592,7 @@ package statedb
 //@   ensures @result-or-error len(chans) > 0 || err != nil
 //@   ensures @lock-released !GH_held[addr(ws.mu)]
 //@   ensures @error-is-context-error err != nil ==> closed(doneChan(ctx))
+//@   atcall Select@* requires @select-under-the-set-lock GH_held[addr(ws.mu)]
 //@   loop 1 invariant @cases-are-members $n >= 0 && unboxptr(rvIface(cases[0].Chan)) == doneChan(ctx) && casesIndex == $n + 1 && len(cases) == 1 + len(ws.chans) && (forall i int :: 1 <= i && i < casesIndex ==> has(ws.chans, unboxptr(rvIface(cases[i].Chan))))
 //@   loop 2 invariant @settle (forall i int :: 1 <= i && i < len(cases) ==> has(ws.chans, unboxptr(rvIface(cases[i].Chan)))) && len(closedChannels) >= 1 && (forall i int :: 0 <= i && i < len(closedChannels) ==> has(ws.chans, closedChannels[i]) && closed(closedChannels[i]))
 //@ func (*WatchSet).Wait$1
@@ -599,3 +620,76 @@ package statedb
 //@   flag nosafety
 //@   requires ws != nil && ws.chans != nil && !GH_held[addr(ws.mu)]
 //@   ensures @emptied forall c ptr :: !has(ws.chans, c)
+
+// Modify's merge step (C03, C09): whatever the user's merge function returns as data, the object
+// handed back to the index carries the revision allocated for this write (new.revision), never
+// the stored object's revision - guards and by-revision queries rely on it.
+//@ func (*genTable).Modify$1
+//@   property C03 C09
+//@   flag nosafety
+//@   flag dyncall.merge=pure
+//@   ensures @keeps-the-new-revision result.revision == new.revision
+
+// The typed table operations are thin wrappers: each passes the caller's guard revision (or none)
+// and the table itself down to modify/delete, and reports exactly what came back.
+//@ func (*genTable).InsertWatch
+//@   property C03 C09
+//@   flag nosafety
+//@   flag assumepre=transaction-table-entries-well-formed
+//@   atcall (*writeTxnState).insert@1 requires @no-guard $2 == 0 && unboxptr($1) == t
+//@ func (*genTable).CompareAndSwap
+//@   property C03 C09
+//@   flag nosafety
+//@   flag assumepre=transaction-table-entries-well-formed
+//@   atcall (*writeTxnState).insert@1 requires @guard-is-the-callers-revision $2 == rev && unboxptr($1) == t
+//@ func (*genTable).Modify
+//@   property C03 C09
+//@   flag nosafety
+//@   flag assumepre=transaction-table-entries-well-formed
+//@   atcall (*writeTxnState).modify@1 requires @no-guard $2 == 0 && unboxptr($1) == t
+//@ func (*genTable).Delete
+//@   property C03 C09
+//@   flag nosafety
+//@   flag assumepre=transaction-table-entries-well-formed
+//@   atcall (*writeTxnState).delete@1 requires @no-guard $2 == 0 && unboxptr($1) == t
+//@ func (*genTable).CompareAndDelete
+//@   property C03 C09
+//@   flag nosafety
+//@   flag assumepre=transaction-table-entries-well-formed
+//@   atcall (*writeTxnState).delete@1 requires @guard-is-the-callers-revision $2 == rev && unboxptr($1) == t
+
+// reindex of a radix-tree index (C04): whenever the object existed before (old.revision != 0) its
+// old keys are visited for removal - no early exit skips that pass - and whenever it exists
+// afterwards (new.revision != 0) its new keys are inserted.
+//@ func (*partIndexTxn).reindex
+//@   property C04
+//@   flag nosafety
+//@   flag dyncall.objectToKeys=pure
+//@   mustcall KeySet.Foreach@1 when @new-keys-inserted new.revision != 0
+//@   mustcall KeySet.Foreach@2 when @old-keys-visited-for-removal old.revision != 0
+//@ func (*lpmIndexTxn).reindex
+//@   property C04
+//@   flag nosafety
+//@   flag dyncall.objectToKeys=pure
+//@   mustcall KeySet.Foreach@1 when @new-keys-inserted new.revision != 0
+//@   mustcall KeySet.Foreach@2 when @old-keys-visited-for-removal old.revision != 0
+
+// partGet / partPrefix (C06): the channel handed to the caller is the one the tree returned for
+// the whole query - for a non-unique index the channel of the PREFIX search over the encoded
+// secondary key (it closes when any object with that secondary key appears or disappears),
+// never the channel of the single object that happened to be found.
+//@ func encodeNonUniqueBytes
+//@   trusted
+//@   pure
+//@ func partGet returns (iobj, watch, found)
+//@   property C06
+//@   flag nosafety
+//@   ensureslocal @unique-get-watch unique ==> watch == getWatchOf(tree, keyId(ikey))
+//@   ensureslocal @non-unique-covering-watch !unique ==> watch == prefixWatchOf(tree, keyId(searchKey))
+//@ func newNonUniquePartIterator
+//@   trusted
+//@   pure
+//@ func partPrefix returns (it, watch)
+//@   property C06
+//@   flag nosafety
+//@   ensureslocal @covering-watch watch == prefixWatchOf(tree, keyId(key))
